@@ -32,6 +32,11 @@ type GroupInfo struct {
 	Role       int                               // 0 plain, 1 G1, 2 G2, 3 GT
 	Suite      *SuiteInfo
 	Extra      bool // only used in the thorough tier
+	// Alt: ANOTHER group object for the same group (a second suite instance, a second call of
+	// suite.G1()); nil where the harness has no second constructor.  Two parties of one process, or
+	// two calls of an accessor, hold different handles of one group; values made through either must
+	// be interchangeable.
+	Alt kyber.Group
 }
 
 type SuiteInfo struct {
@@ -130,6 +135,16 @@ func Groups(all bool) []*GroupInfo {
 func Suites() []*SuiteInfo {
 	regOnce.Do(func() { buildRegistry(); snapshotConstants() })
 	return regSuites
+}
+
+// groupByNameRaw: lookup while the registry is being built
+func groupByNameRaw(n string) *GroupInfo {
+	for _, g := range regGroups {
+		if g.Name == n {
+			return g
+		}
+	}
+	panic("harness: no group " + n)
 }
 
 func groupByName(n string) *GroupInfo {
